@@ -102,6 +102,29 @@ Proof. induction a as [|x a IH]; simpl; [reflexivity|]. rewrite IH. reflexivity.
 Lemma slen_app (a b : string) : String.length (a ++ b) = (String.length a + String.length b)%nat.
 Proof. induction a as [|x a IH]; simpl; [reflexivity|]. rewrite IH. reflexivity. Qed.
 
+Definition u8size (b : N) : nat :=
+  if (b <? 192)%N then 0%nat else if (b <? 224)%N then 1%nat else if (b <? 240)%N then 2%nat else 3%nat.
+
+Lemma substring_app_exact (w t : string) : substring 0 (String.length w) (w ++ t) = w.
+Proof. induction w as [|a w IH]; simpl; [destruct t; reflexivity|]. rewrite IH. reflexivity. Qed.
+Lemma drop_app_exact (w t : string) : drop (String.length w) (w ++ t) = t.
+Proof. induction w as [|a w IH]; simpl; [destruct t; reflexivity|]. exact IH. Qed.
+
+(* a multi-byte character: lead byte and exactly the continuation bytes it announces *)
+Definition mb_char (a : ascii) (w : string) : bool :=
+  (192 <=? b_of a)%N && Nat.eqb (String.length w) (u8size (b_of a)).
+
+Lemma utf8_take_exact a w t : mb_char a w = true -> utf8_take a (w ++ t) = Some (String a w, t).
+Proof.
+  unfold mb_char, utf8_take. intros H. apply andb_true_iff in H as [H1 H2]. apply Nat.eqb_eq in H2.
+  fold (u8size (b_of a)). rewrite <- H2.
+  assert (E : Nat.eqb (String.length w) 0 = false).
+  { rewrite H2. unfold u8size. apply N.leb_le in H1. destruct (N.ltb_spec (b_of a) 192); [lia|].
+    destruct (b_of a <? 224)%N; [reflexivity|]. destruct (b_of a <? 240)%N; reflexivity. }
+  rewrite E. rewrite slen_app. assert (L : Nat.ltb (String.length w + String.length t) (String.length w) = false) by (apply Nat.ltb_ge; lia).
+  rewrite L, substring_app_exact, drop_app_exact. reflexivity.
+Qed.
+
 Definition first_b (s : string) : N := match s with String a _ => b_of a | EmptyString => 0%N end.
 
 Lemma first_b_app (x y z : string) : y <> "" -> first_b (x ++ y ++ z) = first_b (x ++ y).
@@ -132,9 +155,12 @@ Qed.
 
 Definition ctok_ok (t : tok) (next : N) : bool :=
   match t with
-  | TChar (String a EmptyString) =>
+  | TChar (String a w) =>
       let b := b_of a in
-      (b <? 128)%N && negb (b =? 92)%N && negb (b =? 45)%N && negb (b =? 93)%N && (negb (b =? 91)%N || negb (next =? 58)%N)
+      if (b <? 128)%N then
+        match w with EmptyString => true | _ => false end &&
+        negb (b =? 92)%N && negb (b =? 45)%N && negb (b =? 93)%N && (negb (b =? 91)%N || negb (next =? 58)%N)
+      else mb_char a w
   | TMinus => true
   | TPosix (String a0 (String a1 r)) => (b_of a0 =? 91)%N && (b_of a1 =? 58)%N && posix_tail r
   | TEsc o (String bs (String a EmptyString)) =>
@@ -172,18 +198,22 @@ Proof.
     assert (Hnext : first_b tail = first_b (toks_text r ++ "]")) by (apply first_b_app; discriminate).
     destruct t as [v| |v|o v|v]; try discriminate Ht.
     + (* TChar *)
-      destruct v as [|a [|? ?]]; try discriminate Ht. cbn [ctok_ok] in Ht.
-      apply andb_true_iff in Ht as [Ht Hcol]. apply andb_true_iff in Ht as [Ht H93]. apply andb_true_iff in Ht as [Ht H45].
-      apply andb_true_iff in Ht as [H128 H92].
-      apply negb_true_iff in H92. apply negb_true_iff in H45. apply negb_true_iff in H93.
-      assert (G128 : (128 <=? b_of a)%N = false) by (apply N.leb_gt; apply N.ltb_lt; exact H128).
-      cbn [tok_text append lex_body]. rewrite G128, H92.
-      specialize (Htail f ltac:(simpl in *; lia) ltac:(simpl; lia)).
-      destruct (b_of a =? 91)%N eqn:E91.
-      * cbn [negb orb] in Hcol. apply negb_true_iff in Hcol. rewrite <- Hnext in Hcol.
-        destruct tail as [|c r1] eqn:Etl; [unfold tail in Etl; destruct (toks_text r); discriminate Etl|].
-        cbn [first_b] in Hcol. rewrite Hcol, Htail. reflexivity.
-      * rewrite H45, H93, Htail. reflexivity.
+      destruct v as [|a w]; try discriminate Ht. cbn [ctok_ok] in Ht.
+      destruct (b_of a <? 128)%N eqn:H128.
+      * destruct w as [|? ?]; [|discriminate Ht]. cbn [andb] in Ht.
+        apply andb_true_iff in Ht as [Ht Hcol]. apply andb_true_iff in Ht as [Ht H93]. apply andb_true_iff in Ht as [H92 H45].
+        apply negb_true_iff in H92. apply negb_true_iff in H45. apply negb_true_iff in H93.
+        assert (G128 : (128 <=? b_of a)%N = false) by (apply N.leb_gt; apply N.ltb_lt; exact H128).
+        cbn [tok_text append lex_body]. rewrite G128, H92.
+        specialize (Htail f ltac:(simpl in *; lia) ltac:(simpl; lia)).
+        destruct (b_of a =? 91)%N eqn:E91.
+        -- cbn [negb orb] in Hcol. apply negb_true_iff in Hcol. rewrite <- Hnext in Hcol.
+           destruct tail as [|c r1] eqn:Etl; [unfold tail in Etl; destruct (toks_text r); discriminate Etl|].
+           cbn [first_b] in Hcol. rewrite Hcol, Htail. reflexivity.
+        -- rewrite H45, H93, Htail. reflexivity.
+      * assert (G128 : (128 <=? b_of a)%N = true) by (apply N.leb_le; apply N.ltb_ge in H128; exact H128).
+        cbn [tok_text append lex_body]. rewrite G128, (utf8_take_exact a w tail Ht).
+        rewrite (Htail f ltac:(simpl in *; lia) ltac:(simpl; lia)). reflexivity.
     + (* TMinus *)
       cbn [tok_text append lex_body]. change (b_of "-") with 45%N. cbn [N.leb N.eqb Pos.eqb N.compare Pos.compare Pos.compare_cont].
       rewrite (Htail f ltac:(simpl in *; lia) ltac:(simpl; lia)). reflexivity.
@@ -250,9 +280,10 @@ Qed.
 Lemma ctok_first t n : ctok_ok t n = true -> exists c x, tok_text t = String c x /\ b_of c <> 93%N.
 Proof.
   destruct t as [v| |v|o v|v]; try discriminate.
-  - destruct v as [|a [|? ?]]; try discriminate. cbn [ctok_ok]. intros H.
-    apply andb_true_iff in H as [H _]. apply andb_true_iff in H as [_ H]. apply negb_true_iff in H. apply N.eqb_neq in H.
-    exists a, "". split; [reflexivity|exact H].
+  - destruct v as [|a w]; try discriminate. cbn [ctok_ok]. intros H. exists a, w. split; [reflexivity|].
+    destruct (b_of a <? 128)%N eqn:E.
+    + apply andb_true_iff in H as [H _]. apply andb_true_iff in H as [_ H]. apply negb_true_iff in H. apply N.eqb_neq in H. exact H.
+    + apply N.ltb_ge in E. lia.
   - intros _. exists "-"%char, "". split; [reflexivity|discriminate].
   - destruct v as [|a0 [|a1 v]]; try discriminate. cbn [ctok_ok]. intros H.
     apply andb_true_iff in H as [H _]. apply andb_true_iff in H as [H _]. apply N.eqb_eq in H.
@@ -303,9 +334,12 @@ Qed.
 
 Definition ltok_ok (t : tok) (next : N) : bool :=
   match t with
-  | TChar (String a EmptyString) =>
+  | TChar (String a w) =>
       let b := b_of a in
-      (b <? 128)%N && negb (b =? 92)%N && negb (is_operator b) && (negb (b =? 123)%N || negb (is_dig next))
+      if (b <? 128)%N then
+        match w with EmptyString => true | _ => false end &&
+        negb (b =? 92)%N && negb (is_operator b) && (negb (b =? 123)%N || negb (is_dig next))
+      else mb_char a w
   | TEsc o (String bs (String a EmptyString)) =>
       let b := b_of a in
       (b_of bs =? 92)%N && (b <? 128)%N && negb ((b =? 112) || (b =? 80) || (b =? 120) || (b =? 81))%N &&
@@ -345,14 +379,19 @@ Proof.
               match option_map (app r) o with Some ts0 => Some (t :: ts0) | None => None end = option_map (app (t :: r)) o).
     { intros [l|]; reflexivity. }
     destruct t as [v| |v|o v|v]; try discriminate Ht.
-    + destruct v as [|a [|? ?]]; try discriminate Ht. cbn [ltok_ok] in Ht.
-      apply andb_true_iff in Ht as [Ht Hbr]. apply andb_true_iff in Ht as [Ht Hop]. apply andb_true_iff in Ht as [H128 H92].
-      apply negb_true_iff in H92. apply negb_true_iff in Hop.
-      assert (G128 : (128 <=? b_of a)%N = false) by (apply N.leb_gt; apply N.ltb_lt; exact H128).
-      cbn [tok_text append lex_lits]. rewrite G128, H92. specialize (Htail ltac:(simpl; lia)).
-      destruct (b_of a =? 123)%N eqn:E123.
-      * cbn [negb orb] in Hbr. apply negb_true_iff in Hbr. rewrite (lex_repeat_no_digit tail Hbr), Htail. apply Hcons.
-      * rewrite Hop, Htail. apply Hcons.
+    + destruct v as [|a w]; try discriminate Ht. cbn [ltok_ok] in Ht.
+      destruct (b_of a <? 128)%N eqn:H128.
+      * destruct w as [|? ?]; [|discriminate Ht]. cbn [andb] in Ht.
+        apply andb_true_iff in Ht as [Ht Hbr]. apply andb_true_iff in Ht as [H92 Hop].
+        apply negb_true_iff in H92. apply negb_true_iff in Hop.
+        assert (G128 : (128 <=? b_of a)%N = false) by (apply N.leb_gt; apply N.ltb_lt; exact H128).
+        cbn [tok_text append lex_lits]. rewrite G128, H92. specialize (Htail ltac:(simpl; lia)).
+        destruct (b_of a =? 123)%N eqn:E123.
+        -- cbn [negb orb] in Hbr. apply negb_true_iff in Hbr. rewrite (lex_repeat_no_digit tail Hbr), Htail. apply Hcons.
+        -- rewrite Hop, Htail. apply Hcons.
+      * assert (G128 : (128 <=? b_of a)%N = true) by (apply N.leb_le; apply N.ltb_ge in H128; exact H128).
+        cbn [tok_text append lex_lits]. rewrite G128, (utf8_take_exact a w tail Ht).
+        rewrite (Htail ltac:(simpl; lia)). apply Hcons.
     + destruct v as [|bs [|a [|? ?]]]; try discriminate Ht. cbn [ltok_ok] in Ht.
       apply andb_true_iff in Ht as [Ht Hop]. apply andb_true_iff in Ht as [Ht Hpx].
       apply andb_true_iff in Ht as [Ebs H128]. apply N.eqb_eq in Ebs. apply negb_true_iff in Hpx.
@@ -375,7 +414,7 @@ Proof.
     clear -Hok. unfold ltoks_ok in Hok. revert Hok. generalize "". induction ts as [|t r IH]; intros rest Hok; [simpl; lia|].
     cbn [ltoks_ok_in] in Hok. apply andb_true_iff in Hok as [Ht Hr]. cbn [toks_text List.length]. rewrite slen_app.
     specialize (IH rest Hr). assert (1 <= String.length (tok_text t))%nat; [|lia].
-    destruct t as [v| |v|o v|v]; try discriminate Ht; destruct v as [|? [|? ?]]; try discriminate Ht; simpl; lia.
+    destruct t as [v| |v|o v|v]; try discriminate Ht; destruct v as [|? ?]; try discriminate Ht; simpl; lia.
   - cbn [lex_lits option_map]. rewrite app_nil_r. reflexivity.
 Qed.
 
@@ -423,6 +462,12 @@ Example text_guards_satisfiable :
   ltoks_ok [TChar "a"; TChar "{"; TChar "x"; TEsc OpEscapeOctal "\0"; TChar "9"; TEsc OpEscapeMeta "\."; TEsc OpEscapeChar "\d"] = true /\
   ctoks_ok [TChar "a"; TMinus; TChar "c"; TChar "["; TChar "x"; TPosix "[:alpha:]"; TEsc OpEscapeMeta "\]"; TEsc OpEscapeChar "\d"; TMinus] = true /\
   items_ok None [X OpCharRange "a-c" [X OpChar "a" []; X OpChar "c" []]; X OpChar "-" []; X OpChar "x" []; X OpChar "-" []] = true.
+Proof. repeat split; vm_compute; reflexivity. Qed.
+
+(* multi-byte characters are inside both sub-languages *)
+Example text_guards_multibyte :
+  ctoks_ok [TChar "❤"; TMinus; TChar "❥"; TChar "a"] = true /\ ltoks_ok [TChar "a"; TChar "❤"; TChar "{"; TChar "é"] = true /\
+  option_map (fun p => print (fst p)) (parse_class "[❤-❥a]x") = Some "[❤-❥a]".
 Proof. repeat split; vm_compute; reflexivity. Qed.
 
 (* ------------------------------------------------------------------ *)
